@@ -1,3 +1,156 @@
-use hvcommon::{Value, json};
-pub fn run(_case: &Value) -> Value { json!({"bad_case": "ght not built yet"}) }
-pub fn shapes() -> Value { json!([]) }
+//! C08: operation histories on real generalized hash tries (several GhtType! shapes, set storage).
+//! Two registers of the same trie type; every op prints its observation; a panic inside an op
+//! (partial_cmp reaching unreachable!()) is that op's observation.
+use std::cmp::Ordering;
+
+use hvcommon::{Value, guarded, json};
+use lattices::ght::{GeneralizedHashTrieNode, GhtPrefixIter};
+use lattices::{GhtType, IsBot, Merge};
+use variadics::{var_args, var_expr, var_type};
+
+pub type Row = Vec<u32>;
+
+trait Trie: Clone + Default {
+    fn insert(&mut self, r: &[u32]) -> bool;
+    fn merge_node(&mut self, o: Self) -> bool;
+    fn lmerge(&mut self, o: Self) -> bool;
+    fn contains(&self, r: &[u32]) -> bool;
+    fn iter(&self) -> Vec<Row>;
+    fn prefix(&self, p: &[u32]) -> Value;
+    fn leaf(&self, r: &[u32]) -> Value;
+    fn cmp(&self, o: &Self) -> Option<Ordering>;
+    fn eq(&self, o: &Self) -> bool;
+    fn height(&self) -> usize;
+    fn is_bot(&self) -> bool;
+}
+
+fn sorted(mut rows: Vec<Row>) -> Vec<Row> {
+    rows.sort();
+    rows
+}
+
+macro_rules! u32ref {
+    ($x:ident) => { &u32 };
+}
+
+macro_rules! impl_trie {
+    ($ty:ty; $($i:tt $v:ident),+; $( $plen:literal => ($($pi:tt),*) ),* ) => {
+        impl Trie for $ty {
+            fn insert(&mut self, r: &[u32]) -> bool {
+                GeneralizedHashTrieNode::insert(self, var_expr!($(r[$i]),+))
+            }
+            fn merge_node(&mut self, o: Self) -> bool { GeneralizedHashTrieNode::merge_node(self, o) }
+            fn lmerge(&mut self, o: Self) -> bool { Merge::merge(self, o) }
+            fn contains(&self, r: &[u32]) -> bool {
+                GeneralizedHashTrieNode::contains(self, var_expr!($(&r[$i]),+))
+            }
+            fn iter(&self) -> Vec<Row> {
+                self.recursive_iter().map(|var_args!($($v),+)| vec![$(*$v),+]).collect()
+            }
+            fn prefix(&self, p: &[u32]) -> Value {
+                // the leaf impl of GhtPrefixIter demands `KeyPrefixRef: 'static`: leak the (tiny) key
+                let p: &'static [u32] = Box::leak(p.to_vec().into_boxed_slice());
+                fn conv(var_args!($($v),+): var_type!($(u32ref!($v)),+)) -> Row { vec![$(*$v),+] }
+                match p.len() {
+                    $( $plen => json!({"rows": sorted(
+                        GhtPrefixIter::prefix_iter(self, var_expr!($(&p[$pi]),*)).map(conv).collect())}), )*
+                    _ => json!("unsupported"),
+                }
+            }
+            fn leaf(&self, r: &[u32]) -> Value {
+                match self.find_containing_leaf(var_expr!($(&r[$i]),+)) {
+                    None => json!({"optrows": null}),
+                    Some(l) => json!({"optrows": sorted(
+                        l.recursive_iter().map(|var_args!($($v),+)| vec![$(*$v),+]).collect())}),
+                }
+            }
+            fn cmp(&self, o: &Self) -> Option<Ordering> { self.partial_cmp(o) }
+            fn eq(&self, o: &Self) -> bool { self == o }
+            fn height(&self) -> usize { GeneralizedHashTrieNode::height(self) }
+            fn is_bot(&self) -> bool { IsBot::is_bot(self) }
+        }
+    };
+}
+
+type K1V1 = GhtType!(u32 => u32: VariadicHashSetStd);
+type K2V1 = GhtType!(u32, u32 => u32: VariadicHashSetStd);
+type K2V0 = GhtType!(u32, u32 => (): VariadicHashSetStd);
+type K1V2 = GhtType!(u32 => u32, u32: VariadicHashSetStd);
+type K3V1 = GhtType!(u32, u32, u32 => u32: VariadicHashSetStd);
+type K0V2 = GhtType!(() => u32, u32: VariadicHashSetStd);
+
+impl_trie!(K1V1; 0 a, 1 b; 0 => (), 1 => (0), 2 => (0, 1));
+impl_trie!(K2V1; 0 a, 1 b, 2 c; 0 => (), 1 => (0), 2 => (0, 1), 3 => (0, 1, 2));
+impl_trie!(K2V0; 0 a, 1 b; 0 => (), 1 => (0), 2 => (0, 1));
+impl_trie!(K1V2; 0 a, 1 b, 2 c; 0 => (), 1 => (0), 2 => (0, 1), 3 => (0, 1, 2));
+impl_trie!(K3V1; 0 a, 1 b, 2 c, 3 d; 0 => (), 1 => (0), 2 => (0, 1), 3 => (0, 1, 2), 4 => (0, 1, 2, 3));
+impl_trie!(K0V2; 0 a, 1 b; 0 => (), 1 => (0), 2 => (0, 1));
+
+pub fn shapes() -> Value {
+    json!([
+        {"shape": "k1v1", "nk": 1, "arity": 2},
+        {"shape": "k2v1", "nk": 2, "arity": 3},
+        {"shape": "k2v0", "nk": 2, "arity": 2},
+        {"shape": "k1v2", "nk": 1, "arity": 3},
+        {"shape": "k3v1", "nk": 3, "arity": 4},
+        {"shape": "k0v2", "nk": 0, "arity": 2},
+    ])
+}
+
+fn row_of(v: &Value) -> Row {
+    v.as_array().unwrap().iter().map(|x| x.as_u64().unwrap() as u32).collect()
+}
+
+fn cmp_json(c: Option<Ordering>) -> Value {
+    json!({"cmp": match c {
+        None => "None",
+        Some(Ordering::Less) => "Lt",
+        Some(Ordering::Equal) => "Eq",
+        Some(Ordering::Greater) => "Gt",
+    }})
+}
+
+fn history<T: Trie>(ops: &[Value]) -> Value {
+    let mut regs = [T::default(), T::default()];
+    let mut out = Vec::with_capacity(ops.len());
+    for op in ops {
+        let name = op[0].as_str().unwrap();
+        let w = op[1].as_u64().unwrap() as usize;
+        let a = match name {
+            "ins" => json!({"b": regs[w].insert(&row_of(&op[2]))}),
+            "merge" => {
+                let o = regs[1 - w].clone();
+                json!({"b": regs[w].merge_node(o)})
+            }
+            "lmerge" => {
+                let o = regs[1 - w].clone();
+                json!({"b": regs[w].lmerge(o)})
+            }
+            "contains" => json!({"b": regs[w].contains(&row_of(&op[2]))}),
+            "iter" => json!({"rows": sorted(regs[w].iter())}),
+            "prefix" => regs[w].prefix(&row_of(&op[2])),
+            "leaf" => regs[w].leaf(&row_of(&op[2])),
+            // partial_cmp takes shared references: a panic leaves both tries intact
+            "cmp" => guarded(|| cmp_json(regs[w].cmp(&regs[1 - w]))),
+            "eq" => guarded(|| json!({"b": regs[w].eq(&regs[1 - w])})),
+            "height" => json!({"n": regs[w].height()}),
+            "is_bot" => json!({"b": regs[w].is_bot()}),
+            _ => json!({"bad_op": name}),
+        };
+        out.push(a);
+    }
+    json!({ "ans": out })
+}
+
+pub fn run(case: &Value) -> Value {
+    let ops = case["ops"].as_array().unwrap();
+    match case["shape"].as_str().unwrap_or("") {
+        "k1v1" => history::<K1V1>(ops),
+        "k2v1" => history::<K2V1>(ops),
+        "k2v0" => history::<K2V0>(ops),
+        "k1v2" => history::<K1V2>(ops),
+        "k3v1" => history::<K3V1>(ops),
+        "k0v2" => history::<K0V2>(ops),
+        _ => json!({"bad_case": "shape"}),
+    }
+}
